@@ -107,6 +107,8 @@ fn read_pin(path: &Path) -> Option<String> {
     String::from_utf8(b[8..8 + n].to_vec()).ok()
 }
 
+static DEATHS_ATTRIBUTED: AtomicUsize = AtomicUsize::new(0);
+
 struct UnitOutcome {
     result: Option<UnitResult>,
     /// cases that killed / stalled a worker: (case text, how)
@@ -151,6 +153,17 @@ fn run_unit_supervised(
                 incomplete: true,
             };
         }
+        WorkerEnd::Died(why) if DEATHS_ATTRIBUTED.load(Ordering::SeqCst) >= env_u64("VERIF_MAX_DEATHS_TOTAL", 4) as usize => {
+            // enough deaths have been attributed to single cases already (each costs a stall
+            // timeout); the verdict is a violation anyway, this unit is reported as incomplete
+            eprintln!("[driver] {} unit {} worker died ({}); not attributed (death budget used up)", prop.id(), unit, why);
+            return UnitOutcome {
+                result: None,
+                deaths: vec![],
+                machinery: None,
+                incomplete: true,
+            };
+        }
         WorkerEnd::Died(why) => {
             eprintln!(
                 "[driver] {} unit {} worker died ({}); re-running in pinpoint mode",
@@ -163,7 +176,7 @@ fn run_unit_supervised(
     // pinpoint loop
     let pin = workdir.join(format!("{}.{}.pin", prop.id(), unit));
     let skipf = workdir.join(format!("{}.{}.skip", prop.id(), unit));
-    let max_deaths = env_u64("VERIF_MAX_DEATHS_PER_UNIT", 6) as usize;
+    let max_deaths = env_u64("VERIF_MAX_DEATHS_PER_UNIT", 2) as usize;
     let mut deaths: Vec<(String, String)> = vec![];
     loop {
         let _ = std::fs::remove_file(&pin);
@@ -214,6 +227,7 @@ fn run_unit_supervised(
                     }
                     eprintln!("[driver] {} unit {} death attributed to case {}", prop.id(), unit, case);
                     deaths.push((case, why));
+                    DEATHS_ATTRIBUTED.fetch_add(1, Ordering::SeqCst);
                     if deaths.len() >= max_deaths {
                         return UnitOutcome {
                             result: None,
@@ -344,7 +358,7 @@ pub fn replay_case_isolated(
         prop.to_string(),
         f.to_string_lossy().to_string(),
     ];
-    let stall = env_u64("VERIF_STALL_S", 30);
+    let stall = env_u64("VERIF_STALL_S", 20);
     let r = run_worker(&args, Duration::from_secs(stall * 4 + 60));
     let _ = std::fs::remove_file(&f);
     match r {
@@ -446,10 +460,11 @@ pub fn drive(id: &str, tier: Tier) -> i32 {
                 let e = buckets.entry(k.clone()).or_default();
                 e.count += b.count;
                 for ex in &b.examples {
-                    if e.examples.len() < 3 {
-                        e.examples.push(ex.clone());
-                    }
+                    e.examples.push(ex.clone());
                 }
+                // keep the three smallest witnesses (shortest description first)
+                e.examples.sort_by_key(|x| x.case.to_string().len());
+                e.examples.truncate(3);
             }
             for sm in &r.samples {
                 if samples.len() < 12 && (samples.len() < 4 || *u % 7 == 0) {
@@ -615,6 +630,13 @@ pub fn drive(id: &str, tier: Tier) -> i32 {
     if let Err(e) = std::fs::write(&evpath, serde_json::to_string_pretty(&evidence).unwrap()) {
         machinery.push(format!("cannot write evidence: {}", e));
     }
+    // a per-tier copy, so that a quick run does not erase the record of the last thorough run
+    let tdir = evdir.join("by_tier");
+    let _ = std::fs::create_dir_all(&tdir);
+    let _ = std::fs::write(
+        tdir.join(format!("{}.{}.json", prop.id(), tier.name())),
+        serde_json::to_string_pretty(&evidence).unwrap(),
+    );
 
     // ---- report
     println!(
@@ -631,6 +653,9 @@ pub fn drive(id: &str, tier: Tier) -> i32 {
     }
     if !violation_lines.is_empty() {
         return 1;
+    }
+    if incomplete_units > 0 && known_lines.is_empty() && machinery.is_empty() {
+        machinery.push(format!("{} units did not complete and no violation explains it", incomplete_units));
     }
     if !machinery.is_empty() {
         for m in &machinery {
